@@ -240,6 +240,9 @@ def check(rec, kind, idx, rng, tier):
     z = gen.values(rng, (H, W), cls, dtype)
     if z.dtype.kind == 'f' and rng.random() < 0.5:
         z = gen.sprinkle(z, rng, float(rng.choice([0.05, 0.2, 0.5]))).astype(dtype)
+    if z.dtype.kind == 'f' and rng.random() < 0.25:
+        # plateau: magnitude large against the local spread (one-pass variance formulas lose all digits here)
+        z = (float(rng.choice([2400.0, 900.0, 65000.0])) + rng.uniform(0, 4, z.shape)).astype(z.dtype); cls = 'plateau'
     geom = gen.random_geom(rng)
     r = gen.mk(gen.rand_layout(z, rng), attrs={'res': (geom['cx'], geom['cy'])}, **geom)
     z32 = z.astype('float32').astype('float64')
